@@ -13,5 +13,6 @@ pub mod subject;
 pub mod bfs;
 #[cfg(feature = "hooks")]
 pub mod canon;
+pub mod choice;
 #[cfg(feature = "hooks")]
 pub mod props;
